@@ -44,10 +44,49 @@ MISSED_FIRST.update({
     "C18-c": "first caught only as a shape mismatch; the rule now classifies the construct and reports the actual violation",
     "C18-d": "first caught only as a shape mismatch; the rule now classifies the construct and reports the actual violation",
 })
+MISSED_FIRST.update({
+    "C02-d": "setSessionData stores with emplace (second registration ignored) — missed; caught after the registration-replaces clause was added to C02-R8",
+    "C03-d": "idle receive-buffer entry reclaimed on a pure timeout — missed; caught after C03-R9 (entries erased only when closed and drained) was added",
+    "C04-c": "timed-out connectSync parks a second, untimed time — first run ended as ANALYSIS-BROKEN (rule expected exactly one wait); caught after C04-R11 (one wait, bounded by the caller's timeout) was added",
+    "C04-d": "connect-timeout close loses its origin tag — caught by C02-R4 only (other property); C04 now runs the same rule as C04-R12",
+    "C06-c": "peer-index key truncated to two address octets — missed; caught after C06-R8 (key injective) was added",
+    "C06-d": "per-wakeup receive budget without re-arm — missed; caught after C06-R7 (receive loops drain the socket) was added",
+    "C07-d": "HttpServer::stop() clears the TLS configuration — missed; caught after C07-R10 (HTTP server TLS plumbing) was added",
+    "C08-d": "TimerServicePool::stop() skips services that are not Running — missed; caught after the pool clause was added to C08-R6",
+    "C01-e": "batched mode drops staged socket events when a special fd was handled — missed (no rule looked at EventBatchProcessor); caught after C01-R8 was added",
+    "C02-f": "read mode erased only for sessions without a receive buffer — missed; caught after the 'read mode erased on every announced close' clause was added to C02-R8",
+    "C03-f": "flush loop reclaims a closed session's entry before taking its remaining bytes — missed (C03-R9 only required `closed`); caught after C03-R9 also required the buffer drained",
+    "C04-e": "TcpEngine::close() drops the request for an id not yet in the session table — missed; caught after C04-R4b (close always queues) was added",
+    "C04-f": "abandon mark moved behind the re-lock — first run ended as ANALYSIS-BROKEN (own erase = unknown protocol); C04-R10 now reports mark violations before refusing",
+    "C05-e": "connect guard scoped to the wait only — missed; caught after 'no engine call after the guard died' was added to C05-R4 / C04-R5",
+    "C05-f": "UdpEngine::stop joins through a local copy of the thread handle — missed; caught after the closed set of uses of _loop was added to C05-R6",
+    "C06-e": "MSG_MORE on the listener backlog drain — missed; caught after the send-flags clause was added to C06-R2",
+    "C07-e": "URL regex compiled with icase while isHttps() stays exact — missed; caught after C07-R11 (scheme grammar vs. isHttps) was added",
+    "C08-e": "timed-out drain clears the canceled flag of far-future records — missed; caught after C08-R12 (cancellation is final) was added",
+    "C09-e": "spawn-failure handler pops the oldest queued task — missed; caught after the who-may-remove clause was added to C09-R3",
+    "C10-f": "closed flag tested before the lock only — missed (pre-lock facts survived the lock acquisition in C10-R3); caught after lock acquisition forgets them",
+    "C12-f": "prefix test through strncmp — missed; caught after C12-R9 (binary safety) was added",
+    "C18-f": "client turns away control frames while a fragmented message is in progress — missed; caught after 'every frame reaches the opcode dispatch' was added to C18-R5",
+    "C20-e": "reload() re-resolves the lookup bases through a helper taking the root by non-const reference — missed; caught after C20-R6 treated non-const reference hand-outs as writes",
+})
+REFUSED_ONLY = {
+    "C10-e": "DynamicRingBuffer::resize copies run-wise with std::move ranges (loses everything on an exactly full buffer): the new C10-R6 evaluates the per-index copy loop exactly and REFUSES (exit 2) the range-copy form — it is not passed, but it is not reported as a violation either",
+}
 # caught by the first version, but only because a shape the rule expected was gone — the report did not name the real violation
 IMPRECISE_FIRST = {k: MISSED_FIRST.pop(k) for k in ("C14-c", "C14-d", "C15-c", "C16-c", "C18-c", "C18-d")}
+IMPRECISE_FIRST.update({
+    "C03-c": "first also reported 'append unbounded' because the subtraction form of the bound was not recognised; C03-R3 now accepts it and reports only the lost sticky-overflow term",
+    "C07-c": "first caught only as 'applyTls12Floor does not call set_min_proto_version exactly once'; C07-R2 now evaluates the version argument exactly",
+    "C09-f": "first caught only as 'no packaged_task'; C09-R6 now accepts the promise protocol and reports the missing catch-all",
+    "C12-e": "first run ended as a refusal through an anchored local name (`now`); C12-R5 is now name-independent and forgets facts across critical sections",
+    "C19-e": "first caught only as a shape mismatch; C19-R2 now judges the checkBounds-based validation (`0 + pointer <= size` admits pointer == size)",
+    "C19-f": "first flagged all three sections; C19-R6 now judges coverage by the DnsResult members actually read and reports only `authority`",
+    "C01-f": "first caught as 'send does not enqueue' (an artefact of the slicing loop); C01-R1 now also reports 'one send, several commands'",
+})
 CROSS = {"C16-b": ["C15"]}
 SUPERSEDED = {
+    "C07-c": "applyTls12Floor was rewritten by fix 3ce2863 (floor first, then raise); evaluated on the tree before that fix: caught by C07-R2. The equivalent change on today's tree is mutants/C07/floor_lowered.diff.",
+    "C08-f": "the off-by-one in the wheel's level selection no longer manifests since fix d75c3f1 (level-0 fires only entries that are due): its demonstration prints OK on today's tree with the change applied. On the tree before that fix it was missed (no rule looked at level selection).",
     "C15-b": "the try/catch it narrows was removed by fix 89c0d74 (strict chunk-size parser no longer throws); evaluated on the tree before that fix: caught by C15-R4. The equivalent change on today's tree is mutant mutants/C15/m10-server-catch-narrow.diff.",
 }
 
@@ -145,7 +184,8 @@ def main():
             "detected": bool(rules),
             "initially_missed": sid in MISSED_FIRST,
             "initially_imprecise": sid in IMPRECISE_FIRST,
-            "history": MISSED_FIRST.get(sid) or IMPRECISE_FIRST.get(sid) or "caught by the first version of the check",
+            "refused_only": sid in REFUSED_ONLY,
+            "history": MISSED_FIRST.get(sid) or IMPRECISE_FIRST.get(sid) or REFUSED_ONLY.get(sid) or "caught by the first version of the check",
         }
         json.dump(meta, open(os.path.join(dst, "meta.json"), "w"), indent=1)
         summary.append((sid, status.split(":")[0], rc, sorted(rules)))
